@@ -2,6 +2,7 @@ package main
 
 import (
 	"fmt"
+	"sort"
 	"strings"
 
 	"verif/internal/sim"
@@ -150,18 +151,29 @@ func hiddenKeys(v interface{}, depth int, maxDepth int, path string) []string {
 	if !ok {
 		return nil
 	}
-	// (also under the alias the generators use for the vocabulary)
-	for _, k := range []string{"bto", "bcc", "as:bto", "as:bcc"} {
-		if _, has := m[k]; has {
+	// (also under whatever alias a generator gave the vocabulary: the name
+	// after the last colon decides)
+	local := func(k string) string {
+		if i := strings.LastIndex(k, ":"); i >= 0 && !strings.HasPrefix(k, "http") {
+			return k[i+1:]
+		}
+		return k
+	}
+	for k := range m {
+		if l := local(k); l == "bto" || l == "bcc" {
 			out = append(out, path+"/"+k)
 		}
 	}
 	if depth < maxDepth {
-		for _, ok := range []string{"object", "as:object"} {
-			for i, o := range asList(m[ok]) {
-				out = append(out, hiddenKeys(o, depth+1, maxDepth, fmt.Sprintf("%s/%s[%d]", path, ok, i))...)
+		for k, ov := range m {
+			if local(k) != "object" {
+				continue
+			}
+			for i, o := range asList(ov) {
+				out = append(out, hiddenKeys(o, depth+1, maxDepth, fmt.Sprintf("%s/%s[%d]", path, k, i))...)
 			}
 		}
 	}
+	sort.Strings(out)
 	return out
 }
